@@ -2020,7 +2020,10 @@ def gen_C16(r, n):
         for fn in ('sin', 'cos', 'tan'):
             c.add('TwoFloat.%s %s' % (fn, w2(z)), kind='zero_' + fn, x=z)
     # the double-double FRAC_PI_2 itself and its negation: reduced argument exactly 0 in an odd quadrant (known finding for tan)
-    for pz in ((unhx('3ff921fb54442d18'), unhx('3c91a62633145c07')), (unhx('bff921fb54442d18'), unhx('bc91a62633145c07'))):
+    for pz in ((unhx('3ff921fb54442d18'), unhx('3c91a62633145c07')), (unhx('bff921fb54442d18'), unhx('bc91a62633145c07')),
+               (unhx('4012d97c7f3321d2'), unhx('3caa79394c9e8a0a')),      # RN_dd(3 * FRAC_PI_2): true remainder 2^-106, computed remainder 0
+               (unhx('4046c6cbc45dc8de'), unhx('bc26d61b58c99a80')),      # 29 * FRAC_PI_2, exactly representable
+               (unhx('411b23694858e0d9'), unhx('bdbfaecdd60da6ce'))):     # k = 283063
         add(pz)
     for bad in ((math.nan, 0.0), (math.inf, 0.0), (1.0, 1.0), (1.0, math.nan), (-math.inf, -math.inf)):
         for fn in ('sin', 'cos', 'tan'):
@@ -2069,8 +2072,12 @@ def chk_C16(c, ans):
             if len(out) > n0 and not finite(*words(a)):
                 # known finding: the reduced argument is exactly 0 in an odd quadrant (x is an odd multiple of the
                 # double-double FRAC_PI_2 itself), -1.0 / restricted_tan(0) divides by zero
-                ratio = V(*x) / V(unhx('3ff921fb54442d18'), unhx('3c91a62633145c07'))
-                if ratio.denominator == 1 and ratio.numerator % 2 != 0:
+                # (Lean: CAudit.tan_nan_at_reduced_zero, tan_not_finite_iff).  The computed remainder x - k*FRAC_PI_2 is exactly 0 not only
+                # for the exact multiples (k = 1, 29, 204551 below 2^20) but for 3 386 of the double-doubles nearest to an odd multiple:
+                # recognised here by |x - k*FRAC_PI_2| < 2^-96 with k odd
+                Pq = V(unhx('3ff921fb54442d18'), unhx('3c91a62633145c07'))
+                kq = round(V(*x) / Pq)
+                if kq % 2 != 0 and abs(V(*x) - kq * Pq) < Fr(1, 2 ** 96):
                     out[-1]['key'] = 'tan_pole:zero-remainder'
         elif k == 'sin_cos':
             s_, c_ = got.get(('sin', w2(x))), got.get(('cos', w2(x)))
